@@ -459,15 +459,16 @@ def guarded(seconds, fn, *args):
         signal.signal(signal.SIGVTALRM, old)
 
 
-TALL = " [tall: m >= 1.2 n, n+m >= 24]"
+LARGE = " [large: n+m >= 190]"
 
 
 def shape_tag(n, m):
-    """Obligation suffix decided by the SHAPE of the input alone.  On tall, massively degenerate LPs the unchanged tree itself
-    loses the verdict to accumulated rounding (first seen at 11x15, 1-10 % of 17x46 .. 26x74 cones: triage/C03_round2.md);
-    filing tall round-2 cases under their own obligation name keeps that finding separable from anything found on the
-    square and wide instances of the same families (where the unchanged tree has not failed once)."""
-    return TALL if m >= 1.2 * n and n + m >= 24 else ""
+    """Obligation suffix decided by the SIZE of the input alone.  On LPs with about 200 or more tableau columns (n variables +
+    m slacks) the unchanged tree itself can lose the verdict to accumulated rounding in its dense tableau (after fix a67c837:
+    about 1-2 % of the 200- and 260-column ladder instances, tall and wide alike, 0 of several thousand below 190:
+    triage/C03_round2.md, known_findings.json); filing those cases under their own obligation name keeps that recorded finding
+    separable from anything found on smaller instances of the same families."""
+    return LARGE if n + m >= 190 else ""
 
 
 def cpu_budget(n, m):
